@@ -3,6 +3,7 @@ from __future__ import annotations
 
 from typing import Any, Optional
 
+from autobean_refactor import models
 from autobean_refactor.models import base
 from autobean_refactor.models.block_comment import BlockComment
 
@@ -22,11 +23,11 @@ RULE = ('Generated ledgers biased to comment layouts (comment blocks of both ind
         'indentation class => its leading comment), X (different class => not that model\'s leading/trailing comment), T (not L, directly below a '
         'model of the same class and followed by a blank line / end of file / a line of the other class => trailing comment of one of the models '
         'ending there), S (blank or file boundary on both sides => an entry of a repeated field). Layouts where the documented rule has more than one '
-        'reading are counted as undecided and accept anything. Non-trivial = a document with a comment adjacent to models on both sides, or directly '
+        'reading are counted as undecided and accept anything. Built-documents job: files assembled with Open / Transaction / Posting from_value and comment setters (0-2 meta items, 0-2 postings, posting meta, trailing comments on every subset, a standalone note at the end of a body, an optional following directive with or without a leading comment): where their attribution equals that of parse(printed text), releasing any comment and running auto_claim_comments() on the document, and unclaim_interleaving_comments() + claim_interleaving_comments(), must restore it. Non-trivial = a document with a comment adjacent to models on both sides, or directly '
         'before a dedent, or of a different indentation class than a neighbour.')
 ASSUMPTIONS = ['which repeated field a standalone comment joins is not prescribed', 'among nested models ending on the same line any one may own a trailing comment']
 SHRINK_LISTS = ('ops', 'dirs')
-REQUIRED_CLASSES = ('rule:L', 'rule:T', 'rule:S', 'rule:X', 'stage:parse-vs-later', 'stage:idempotent', 'stage:unclaim-claim', 'stage:program')
+REQUIRED_CLASSES = ('stage:built', 'rule:L', 'rule:T', 'rule:S', 'rule:X', 'stage:parse-vs-later', 'stage:idempotent', 'stage:unclaim-claim', 'stage:program')
 
 
 class Lines:
@@ -226,7 +227,115 @@ def _holder(hk: str, hdesc: Any) -> str:
     return str(hdesc[0])
 
 
+def build_document(spec: dict) -> Any:
+    """A document assembled with the value-level constructors (entries built this way carry no dedent mark)."""
+    import datetime
+    import decimal
+    file = common.parser().parse('', models.File)
+    for n, e in enumerate(spec['entries']):
+        meta = {'k%da' % n: 'v', 'k%db' % n: decimal.Decimal(2)}
+        meta = dict(list(meta.items())[:e['meta']]) or None
+        kw = dict(meta=meta, leading_comment='lead %d' % n if e.get('lc') else None, trailing_comment='trail %d' % n if e.get('tc') else None)
+        if e['kind'] == 'open':
+            d = models.Open.from_value(datetime.date(2000, 1, 1 + n), 'Assets:A%d' % n, **kw)
+        else:
+            ps = []
+            for k in range(e.get('postings', 0)):
+                ps.append(models.Posting.from_value('Assets:P%d' % k, decimal.Decimal(k + 1), 'USD',
+                                                    meta={'pk': 'w'} if e.get('pmeta') and k == 0 else None,
+                                                    leading_comment='plead %d' % k if (e.get('plc', 0) >> k) & 1 else None,
+                                                    trailing_comment='ptrail %d' % k if (e.get('ptc', 0) >> k) & 1 else None))
+            d = models.Transaction.from_value(datetime.date(2000, 1, 1 + n), None, 'n%d' % n, ps, **kw)
+            if e.get('pmeta') and e.get('pmtc') and ps:
+                ps[0].raw_meta[0].trailing_comment = 'pmtrail'
+        for k in range(e['meta']):
+            if (e.get('mtc', 0) >> k) & 1:
+                d.raw_meta[k].trailing_comment = 'mtrail %d' % k
+            if (e.get('mlc', 0) >> k) & 1:
+                d.raw_meta[k].leading_comment = 'mlead %d' % k
+        if e.get('standalone') == 'meta' and hasattr(d, 'raw_meta_with_comments'):
+            d.raw_meta_with_comments.append(BlockComment.from_value('note %d' % n, indent='    '))
+        if e.get('standalone') == 'postings' and e['kind'] == 'txn':
+            d.raw_postings_with_comments.append(BlockComment.from_value('pnote %d' % n, indent='    '))
+        file.raw_directives.append(d)
+    return file
+
+
+def _run_built(case: dict) -> Result:
+    res = Result()
+    classes = {'stage:built'}
+    try:
+        root = build_document(case['built'])
+    except common.REFUSAL:
+        return Result(discard=True)
+    text = O.print_text(root)
+    res.nontrivial = any(e.get('tc') or e.get('mtc') or e.get('ptc') or e.get('standalone') for e in case['built']['entries'])
+    bad = check_unique(root, True, 'after construction')
+    if bad:
+        return _done(res.bad('built:unique:' + bad[0], bad[1]), classes)
+    try:
+        parsed = common.parse_file(text)
+    except Exception:  # noqa: BLE001 - C15's subject
+        return Result(discard=True)
+    if omap(parsed) != omap(root):
+        # the constructors decide ownership themselves; where the text reads differently, only the agreement with later attribution is in question
+        classes.add('built:differs-from-parse')
+        return _done(res, classes)
+    for stage in (_release_then_auto, _release_then_claim_lists):
+        bad = stage(root, text, classes)
+        if bad:
+            return _done(res.bad('built:' + bad[0], 'a document assembled with from_value constructors (no dedent marks): ' + bad[1]), classes)
+        root = build_document(case['built'])
+    return _done(res, classes)
+
+
+def _release_then_claim_lists(root: Any, text: str, classes: set) -> Optional[tuple]:
+    """unclaim_interleaving_comments() followed by claim_interleaving_comments() (nothing named) restores the list's standalone comments."""
+    for ms in OPS.index_models(root).values():
+        for m in ms:
+            for p in S.props_of(m):
+                if p.kind != 'clist':
+                    continue
+                w = getattr(m, p.name)
+                if not any(isinstance(x, BlockComment) for x in w):
+                    continue
+                before = omap(root)
+                w.unclaim_interleaving_comments()
+                try:
+                    w.claim_interleaving_comments()
+                except Exception as e:  # noqa: BLE001
+                    return (f'unclaim-claim-list-raised:{type(e).__name__}', f'unclaim_interleaving_comments() then claim_interleaving_comments() on '
+                            f'{type(m).__name__}.{p.name} raised {e!r} in {text!r}')
+                classes.add('stage:unclaim-claim-list')
+                if omap(root) != before:
+                    return (f'unclaim-claim-list:{type(m).__name__}.{p.name}', f'unclaim_interleaving_comments() then claim_interleaving_comments() on '
+                            f'{type(m).__name__}.{p.name} does not restore the attribution: {_mdiff(before, omap(root))} in {text!r}')
+    return None
+
+
+def _built_sweep():
+    for kind in ('open', 'txn'):
+        for meta in (0, 1, 2):
+            for mtc in range(1 << meta):
+                for tc in (False, True):
+                    for standalone in (None, 'meta', 'postings'):
+                        if standalone == 'postings' and kind != 'txn':
+                            continue
+                        for follow in (None, {'kind': 'open', 'meta': 0}, {'kind': 'open', 'meta': 0, 'lc': True}):
+                            variants = [{}]
+                            if kind == 'txn':
+                                variants = [{'postings': n, 'ptc': ptc, 'pmeta': pm, 'pmtc': pm}
+                                            for n in (0, 1, 2) for ptc in range(1 << n) for pm in ((False, True) if n else (False,))]
+                            for v in variants:
+                                if standalone == 'postings' and meta and not v.get('postings'):
+                                    continue   # the layout of the open finding about transactions with meta and no postings
+                                e = {'kind': kind, 'meta': meta, 'mtc': mtc, 'tc': tc, 'standalone': standalone, **v}
+                                yield {'built': {'entries': [e] + ([follow] if follow else [])}}
+
+
 def run_case(case: dict) -> Result:
+    if case.get('built'):
+        return _run_built(case)
     res = Result()
     classes = set()
     root = common.parse_case(case, claim=True)
@@ -585,5 +694,6 @@ def _sweep():
 
 def jobs(tier: str) -> list[Job]:
     return [Job('layout-sweep', 'enum', _sweep, exhaustive=True),
+            Job('built-documents', 'enum', _built_sweep, exhaustive=True),
             Job('random-layouts', 'hyp', lambda: _build(tier), 2500 if tier == 'quick' else 100000),
             Job('claim-pingpong', 'hyp', lambda: c04._build_pingpong(tier), 1500 if tier == 'quick' else 60000)]
